@@ -15,10 +15,12 @@ import (
 
 	"github.com/btcsuite/btcd/btcec/v2"
 	"github.com/btcsuite/btcd/btcutil/v2"
+	"github.com/btcsuite/btcd/txscript/v2"
 	"github.com/btcsuite/btcd/wire/v2"
 	"github.com/lightningnetwork/lnd/chanstate"
 	"github.com/lightningnetwork/lnd/fn/v2"
 	"github.com/lightningnetwork/lnd/input"
+	"github.com/lightningnetwork/lnd/keychain"
 	"github.com/lightningnetwork/lnd/lntypes"
 	"github.com/lightningnetwork/lnd/lnwire"
 )
@@ -148,6 +150,12 @@ func VerifC17Balance() {
 var c17Lens = [][2]int{
 	{22, 22}, {22, 34}, {34, 22}, // quick
 	{34, 34}, {25, 23}, {23, 34}, {2, 3}, // thorough adds
+}
+
+// (index into c17Lens, kind of A's script, kind of B's script), see c17Script
+var c17Combos = [][3]int{
+	{0, 0, 0}, {0, 1, 0}, {0, 0, 2}, {0, 2, 1}, // quick
+	{0, 0, 1}, {0, 2, 0}, {0, 1, 1}, {0, 1, 2}, {0, 2, 2}, {1, 0, 0}, {2, 0, 0}, {3, 0, 0},
 }
 
 // c17Script returns a delivery script. kind 0: n arbitrary bytes that are not
@@ -343,10 +351,15 @@ type c17Signer struct {
 	input.Signer
 	who    int
 	signed []*wire.MsgTx
+	// real, when set (native replay of VerifC17Complete), really signs
+	real input.Signer
 }
 
-func (s *c17Signer) SignOutputRaw(tx *wire.MsgTx, _ *input.SignDescriptor) (input.Signature, error) {
+func (s *c17Signer) SignOutputRaw(tx *wire.MsgTx, d *input.SignDescriptor) (input.Signature, error) {
 	s.signed = append(s.signed, tx)
+	if s.real != nil {
+		return s.real.SignOutputRaw(tx, d)
+	}
 	return &c17Sig{who: s.who, tx: tx}, nil
 }
 
@@ -373,6 +386,56 @@ func c17Chan(ct uint64, isInit bool, local, remote lnwire.MilliSatoshi, commitFe
 	}, sg
 }
 
+// c17Fund gives the two channel values a 2-of-2 funding output. Natively the
+// keys, scripts and signer are real (so that the real script VM runs in
+// CompleteCooperativeClose); symbolically keys are opaque well-formed values
+// and signatures are ideal.
+func c17Fund(chA, chB *LightningChannel, sgA, sgB *c17Signer, capacity btcutil.Amount) (ws []byte) {
+	var pubA, pubB *btcec.PublicKey
+	var pk []byte
+	if vNative() {
+		var kA, kB [32]byte
+		for i := range kA {
+			kA[i], kB[i] = 0x11, 0x22
+		}
+		privA, pA := btcec.PrivKeyFromBytes(kA[:])
+		privB, pB := btcec.PrivKeyFromBytes(kB[:])
+		pubA, pubB = pA, pB
+		ws, _ = input.GenMultiSigScript(pubA.SerializeCompressed(), pubB.SerializeCompressed())
+		pk, _ = input.WitnessScriptHash(ws)
+		sgA.real = input.NewMockSigner([]*btcec.PrivateKey{privA}, nil)
+		sgB.real = input.NewMockSigner([]*btcec.PrivateKey{privB}, nil)
+	} else {
+		pubA, pubB = &btcec.PublicKey{}, &btcec.PublicKey{}
+		ws = []byte{0x52, 0x52, 0xae}
+		pk = make([]byte, 34)
+	}
+	desc := func(pub *btcec.PublicKey) *input.SignDescriptor {
+		return &input.SignDescriptor{
+			KeyDesc:       keychain.KeyDescriptor{PubKey: pub},
+			WitnessScript: ws,
+			Output:        &wire.TxOut{PkScript: pk, Value: int64(capacity)},
+			HashType:      txscript.SigHashAll,
+		}
+	}
+	chA.signDesc, chB.signDesc = desc(pubA), desc(pubB)
+	chA.channelState.LocalChanCfg.MultiSigKey.PubKey = pubA
+	chA.channelState.RemoteChanCfg.MultiSigKey.PubKey = pubB
+	chB.channelState.LocalChanCfg.MultiSigKey.PubKey = pubB
+	chB.channelState.RemoteChanCfg.MultiSigKey.PubKey = pubA
+	return ws
+}
+
+// Symbolic stand-ins for the Bitcoin script VM (never interpreted
+// symbolically; the native replay runs the real one).
+func c17NewEngine(_ []byte, _ *wire.MsgTx, _ int, _ txscript.ScriptFlags, _ *txscript.SigCache,
+	_ *txscript.TxSigHashes, _ int64, _ txscript.PrevOutputFetcher) (*txscript.Engine, error) {
+
+	return &txscript.Engine{}, nil
+}
+
+func c17Execute(_ *txscript.Engine) error { return nil }
+
 func c17SameTx(a, b *wire.MsgTx) bool {
 	if a.Version != b.Version || a.LockTime != b.LockTime || len(a.TxIn) != len(b.TxIn) || len(a.TxOut) != len(b.TxOut) {
 		return false
@@ -393,14 +456,19 @@ func c17SameTx(a, b *wire.MsgTx) bool {
 //   flow 0: legacy negotiation (no options; the opener pays)
 //   flow 1: RBF coop, A is the closer and pays  (A: payer Local,  B: payer Remote)
 //   flow 2: RBF coop, B is the closer and pays  (A: payer Remote, B: payer Local)
-func c17Mirror(tier int) {
+func c17Mirror(tier int, complete bool) {
 	vOverflow("github.com/lightningnetwork/lnd/lnwallet.CoopCloseBalance")
 	vAssumption("C17(3): channel without HTLCs, both sides hold the same (mirrored) commitment balances in msat and the same commit fee; " +
 		"local+remote+commitFee(+anchors) <= capacity <= 21e6 BTC (C01 conservation); both sides apply the same close fee, payer, sequence and locktime; ideal signatures (a signature is bound to the signed transaction)")
 	// channel type: any 64-bit value; the two bits the close depends on are
 	// case-split (shardable), all other bits stay symbolic
 	ct := vU64("chanType")
-	cls := vChoice("chanClass", 4)
+	nCls := 4
+	if complete {
+		// finalising a taproot close needs a MuSig2 session (outside)
+		nCls = 2
+	}
+	cls := vChoice("chanClass", nCls)
 	vAssume((ct&c17AnchorBit != 0) == (cls&1 != 0) && (ct&c17TaprootBit != 0) == (cls&2 != 0))
 	aInit := vChoice("aIsInitiator", 2) == 1
 	capacity := c17Amt("capacity")
@@ -425,14 +493,25 @@ func c17Mirror(tier int) {
 	op := c17Outpoint()
 
 	flow := vChoice("flow", 3)
-	nShapes := 2
-	if tier > 0 {
-		nShapes = 4
+	// legacy flow: script length pairs (quick 2, thorough 4; Complete: 1 / 2).
+	// RBF flows: (length pair, script kinds) combinations from c17Combos
+	// (quick 4, thorough all 12; Complete: 2 / 4).
+	nShapes, nCombos := 2, 4
+	if complete {
+		nShapes, nCombos = 1, 2
 	}
-	shape := vChoice("scriptLens", nShapes)
-	kA, kB := 0, 0
-	if flow != 0 {
-		kA, kB = vChoice("kindA", 3), vChoice("kindB", 3)
+	if tier > 0 {
+		nShapes, nCombos = 4, len(c17Combos)
+		if complete {
+			nShapes, nCombos = 2, 4
+		}
+	}
+	shape, kA, kB := 0, 0, 0
+	if flow == 0 {
+		shape = vChoice("scriptLens", nShapes)
+	} else {
+		k := vChoice("scriptCombo", nCombos)
+		shape, kA, kB = c17Combos[k][0], c17Combos[k][1], c17Combos[k][2]
 	}
 	sA, opRetA := c17Script("aScript", kA, c17Lens[shape][0], flow != 0)
 	sB, opRetB := c17Script("bScript", kB, c17Lens[shape][1], flow != 0)
@@ -440,6 +519,13 @@ func c17Mirror(tier int) {
 	chA, sgA := c17Chan(ct, aInit, aMsat, bMsat, commitFee, dustA, dustB, capacity, op, 0)
 	chB, sgB := c17Chan(ct, !aInit, bMsat, aMsat, commitFee, dustB, dustA, capacity, op, 1)
 
+	var ws []byte
+	if complete {
+		vReplace("github.com/btcsuite/btcd/txscript/v2.NewEngine", "github.com/lightningnetwork/lnd/lnwallet.c17NewEngine")
+		vReplace("(*github.com/btcsuite/btcd/txscript/v2.Engine).Execute", "github.com/lightningnetwork/lnd/lnwallet.c17Execute")
+		vAssumption("C17(3c): symbolically txscript.NewEngine/Execute are replaced by an ideal verdict (accept); the obligation 'the completed tx is the tx both signatures were made for' states when ideal signatures verify; natively the real keys, ECDSA signatures and script VM run")
+		ws = c17Fund(chA, chB, sgA, sgB, capacity)
+	}
 	var optsA, optsB []ChanCloseOpt
 	aPays := aInit
 	if flow != 0 {
@@ -468,10 +554,13 @@ func c17Mirror(tier int) {
 	vAssert(c17SameTx(txA, txB), "both sides build the identical transaction (version, locktime, input, sequence, outputs in order)")
 	// ideal signatures: each side signed exactly the transaction it returned,
 	// hence (by the previous obligation) the transaction the peer built
-	iA, okA := sigA.(*c17Sig)
-	iB, okB := sigB.(*c17Sig)
-	vAssert(okA && okB && iA.tx == txA && iB.tx == txB && len(sgA.signed) == 1 && len(sgB.signed) == 1,
+	vAssert(len(sgA.signed) == 1 && len(sgB.signed) == 1 && sgA.signed[0] == txA && sgB.signed[0] == txB,
 		"each side signs the transaction it returns, once")
+	if !complete {
+		iA, okA := sigA.(*c17Sig)
+		iB, okB := sigB.(*c17Sig)
+		vAssert(okA && okB && iA.tx == txA && iB.tx == txB, "the returned signature is the one made for the returned transaction")
+	}
 
 	// what each party is owed, from the property text
 	owedA := aSat
@@ -538,7 +627,30 @@ func c17Mirror(tier int) {
 		vAssert(txA.TxIn[0].Sequence == wantSeq && txA.LockTime == 0, "legacy flow: final sequence (RBF sequence for taproot), locktime 0")
 	}
 	vAssert(txA.TxIn[0].PreviousOutPoint == op, "spends the funding outpoint")
+	if !complete {
+		return
+	}
+
+	// ---- (3c) both sides finalise with the two signatures ----
+	finA, fbalA, errFA := chA.CompleteCooperativeClose(sigA, sigB, sA, sB, fee, optsA...)
+	finB, fbalB, errFB := chB.CompleteCooperativeClose(sigB, sigA, sB, sA, fee, optsB...)
+	vObserve("errFinA", errFA != nil)
+	vObserve("errFinB", errFB != nil)
+	vAssert(errFA == nil && errFB == nil, "CompleteCooperativeClose succeeds on both sides with the two proposal signatures")
+	if errFA != nil || errFB != nil {
+		return
+	}
+	vReach("completed")
+	// ideal signatures verify iff they were made for this very transaction
+	vAssert(c17SameTx(finA, txA) && c17SameTx(finA, txB), "A completes the transaction both signatures were made for")
+	vAssert(c17SameTx(finB, txA) && c17SameTx(finB, txB), "B completes the transaction both signatures were made for")
+	vAssert(fbalA == owedA && fbalB == owedB, "final balances reported at completion = what each side is owed")
+	vAssert(len(finA.TxIn[0].Witness) == 4 && bytes.Equal(finA.TxIn[0].Witness[3], ws) &&
+		len(finB.TxIn[0].Witness) == 4 && bytes.Equal(finB.TxIn[0].Witness[3], ws), "2-of-2 witness: empty, two signatures, witness script")
+	vAssert(chA.isClosed && chB.isClosed, "both channels are marked closed")
 }
 
-func VerifC17Mirror()         { c17Mirror(0) }
-func VerifC17MirrorThorough() { c17Mirror(1) }
+func VerifC17Mirror()           { c17Mirror(0, false) }
+func VerifC17MirrorThorough()   { c17Mirror(1, false) }
+func VerifC17Complete()         { c17Mirror(0, true) }
+func VerifC17CompleteThorough() { c17Mirror(1, true) }
